@@ -332,6 +332,8 @@ impl<const NB_PROOFS: usize> LightAggregator<NB_PROOFS> {
                     &[&[proof_instances]],
                     &mut inner_transcript,
                 )?;
+                // The whole byte string must be the proof (no trailing bytes).
+                inner_transcript.assert_empty().map_err(|_| Error::Opening)?;
 
                 assert!(dual_msm.clone().check(&srs.verifier_params()));
 
